@@ -82,7 +82,7 @@ Proof.
   - intros c0 t0 k e cond names vals H _. now apply XInv_update.
   - apply XInv_delete_op.
   - intros t0. apply XInv_clear.
-  - intros n ks defs. split; [split; cbn; [apply wf_nil|reflexivity]|]. intros n0 ix [].
+  - intros n h r defs. split; [split; cbn; [apply wf_nil|reflexivity]|]. intros n0 ix [].
   - intros t0 ppr d t'. apply XInv_add_global_index.
   - (* a local index on an empty table *)
     intros t0 d t' [HT HI] Hd Ea. unfold add_local_index in Ea.
